@@ -354,6 +354,7 @@ def main():
     ap = argparse.ArgumentParser()
     ap.add_argument("pid")
     ap.add_argument("--func", action="append", default=[])
+    ap.add_argument("--qual", action="append", default=[], help="additional function qualnames (helpers the check does not analyse directly)")
     ap.add_argument("--ops", default="")
     ap.add_argument("--out", default=None)
     ap.add_argument("--max", type=int, default=0)
@@ -367,6 +368,8 @@ def main():
     funcs = ev["coverage"]["functions_analysed"]
     if a.func:
         funcs = [f for f in funcs if any(x in f for x in a.func)]
+    if a.qual:
+        funcs = ([] if not a.func else funcs) + list(a.qual)
     ops = set(a.ops.split(",")) if a.ops else None
     jobs = []
     srcs = {}
